@@ -104,7 +104,8 @@ Definition version_like (n : str) : bool :=
 (* ... and '"lit" < name' / '"lit" > name' on a version-valued variable when the literal is a pre/post/dev release
    (Version(lit).is_prerelease or .is_postrelease; for the valid version texts in play: the text contains a letter) *)
 Definition is_letter (c : N) : bool := ((65 <=? c) && (c <=? 90)) || ((97 <=? c) && (c <=? 122)).
-Definition suffixed (s : str) : bool := existsb is_letter s.
+Definition suffixed (s : str) : bool :=
+  existsb is_letter (match s with c :: t => if (c =? 118) || (c =? 86) then t else s | [] => [] end).   (* a leading "v" / "V" is part of no segment *)
 (* ... and '"lit" ~= name' (the compatible-release range is built from the environment value) and wildcard literals
    ('"3.8.*" == name': no candidate version at all) on a version-valued variable.
    Domain: operand texts in the spelling str(Version) produces (a leading "v", "1.0-1" for a post-release are the text layer). *)
